@@ -234,6 +234,22 @@ def conditions_at(fn, inst):
     return out
 
 
+def guarded_here_or_at_callers(P, fn, inst, test, depth=0, seen=None):
+    """test(fn, guard, truth) holds for some condition known at `inst`; or fn is a static helper and the same holds at every one of
+    its call sites (two levels up at most): the guard may sit in the caller when the guarded statement was moved into a helper"""
+    for (gd, truth) in conditions_at(fn, inst):
+        if test(fn, gd, truth):
+            return True
+    if depth >= 2 or not fn.internal:
+        return False
+    seen = seen if seen is not None else set()
+    if fn.name in seen:
+        return False
+    seen.add(fn.name)
+    cs = P.callers().get(fn.name, [])
+    return bool(cs) and all(guarded_here_or_at_callers(P, cf, ci, test, depth + 1, seen) for cf, ci in cs)
+
+
 def cond_call(fn, cond, truth=True, depth=0):
     """condition operand -> (call inst, polarity) when it is a (possibly negated / compared-with-zero) call result"""
     i = fn.resolve(strip_casts(fn, cond))
